@@ -611,4 +611,52 @@ def c03_g(ctx: Ctx):
     return out
 
 
-RULES = [c03_a, c03_b, c03_c, c03_d, c03_e, c03_f, c03_g]
+@rule("C03-h")
+def c03_h(ctx: Ctx):
+    """The listing and the membership test mean the same set of jobs: a job directory that is a symbolic link (job relocated to scratch storage,
+    job linked in from another project) is found by full id (os.path.exists follows links), so the listing must not leave it out."""
+    R = "C03-h"
+    fi = ctx.fn(JOBDIRS)
+    out = []
+    k = JOBDIRS + "|links-listed"
+    hits = []
+    for n in body_nodes(fi):
+        if not isinstance(n, ast.Call):
+            continue
+        e = common.ext_name(ctx, fi, n)
+        attr = n.func.attr if isinstance(n.func, ast.Attribute) else None
+        fs = kwarg(n, "follow_symlinks")
+        if attr in ("is_dir", "is_file", "isdir") and fs is not None and ctx.fold(fs, fi) is False:
+            hits.append((n, f"{canon(n)[:50]} is false for a symbolic link"))
+        elif e in ("os.path.islink",) or attr == "is_symlink":
+            hits.append((n, f"{canon(n)[:50]} singles out symbolic links"))
+        elif e in ("os.lstat",) or attr == "lstat":
+            hits.append((n, f"{canon(n)[:50]} examines the link itself, not the directory it points to"))
+    ys = [n for n in body_nodes(fi) if isinstance(n, (ast.Yield, ast.YieldFrom))]
+    flagged = False
+    for (n, why) in hits:
+        # the test must actually decide what is yielded
+        for y in ys:
+            facts = common.expand_facts(ctx, fi, common.facts_at(ctx, fi, y, "n"))
+            txt = canon(n).replace(" ", "")
+            if any(txt in t.replace(" ", "") for (t, _p) in facts) or isinstance(y.value if isinstance(y, ast.Yield) else None, (ast.GeneratorExp,)) :
+                out.append(ctx.viol(R, fi, n, f"the job listing filters on {why}: a job directory that is a symbolic link is still opened by its full id and reported by `in`, but it is missing "
+                                    "from len(), iteration, find_jobs, prefix resolution and update_cache", construct=k))
+                flagged = True
+                break
+    if not flagged:
+        out.append(ctx.ok(R, fi, fi.node, "the listing does not treat symbolic links differently from directories (as the membership test, which follows links)", construct=k))
+    return out
+
+
+@rule("C03-i")
+def c03_i(ctx: Ctx):
+    """move() into a project whose workspace directory is missing creates it first (same obligation as C04-k)."""
+    from .c04 import c04_k
+    res = c04_k(ctx)
+    for r in res:
+        r.rule = "C03-i"
+    return res
+
+
+RULES = [c03_a, c03_b, c03_c, c03_d, c03_e, c03_f, c03_g, c03_h, c03_i]
